@@ -463,10 +463,26 @@ fn mode_ast(path: &str, out: &mut String) {
         match it {
             syn::Item::Struct(st) => {
                 let fields: Vec<J> = match &st.fields {
-                    syn::Fields::Named(n) => n.named.iter().map(|f| J::A(vec![s(f.ident.as_ref().unwrap()), ast_type(&f.ty)])).collect(),
+                    syn::Fields::Named(n) => n
+                        .named
+                        .iter()
+                        .map(|f| {
+                            J::A(vec![
+                                s(f.ident.as_ref().unwrap()),
+                                ast_type(&f.ty),
+                                J::A(f.attrs.iter().filter(|x| !x.path().is_ident("doc")).map(|x| jn(&x.meta)).collect()),
+                            ])
+                        })
+                        .collect(),
+                    syn::Fields::Unit => vec![],
                     f => vec![a("unsupported", vec![jn(f)])],
                 };
-                structs.push(J::O(vec![("name", s(&st.ident)), ("generics", jn(&st.generics)), ("fields", J::A(fields))]));
+                structs.push(J::O(vec![
+                    ("name", s(&st.ident)),
+                    ("generics", jn(&st.generics)),
+                    ("attrs", J::A(st.attrs.iter().filter(|x| !x.path().is_ident("doc")).map(|x| jn(&x.meta)).collect())),
+                    ("fields", J::A(fields)),
+                ]));
             }
             syn::Item::Impl(im) if im.trait_.is_none() => {
                 let owner = match &*im.self_ty {
@@ -489,6 +505,7 @@ fn mode_ast(path: &str, out: &mut String) {
                             syn::ReturnType::Type(_, t) => ast_type(t),
                         };
                         methods.push(J::O(vec![
+                            ("self_ty", jn(&im.self_ty)),
                             ("owner", s(&owner)),
                             ("name", s(&f.sig.ident)),
                             ("attrs", J::A(f.attrs.iter().filter(|x| !x.path().is_ident("doc")).map(|x| jn(&x.meta)).collect())),
@@ -522,6 +539,7 @@ fn mode_ast(path: &str, out: &mut String) {
                             syn::ReturnType::Type(_, t) => ast_type(t),
                         };
                         trait_methods.push(J::O(vec![
+                            ("impl_fns", J::A(im.items.iter().filter_map(|x| if let syn::ImplItem::Fn(f) = x { Some(s(&f.sig.ident)) } else { None }).collect())),
                             ("owner", s(&owner)),
                             ("trait", s(&tr)),
                             ("self_ty", ast_type(&im.self_ty)),
